@@ -525,6 +525,7 @@ type genOpts struct {
 	byz         []int    // creators with lying clocks
 	txKinds     bool     // exotic transaction payloads
 	burst       bool     // bursts of events without other-parent
+	joinEarly   bool     // joins are requested in the first steps (long life as validators afterwards)
 	shrink      bool     // a leave that lowers the supermajority, with a silent validator
 	sleeper     bool     // the last creator sleeps from steps/6 on and only wakes to create a witness of a decided round that still waits for an earlier one
 	topo        int      // gossip graph: 0 complete, 1 path, 2 two camps joined by one bridge (persistent split votes, slow elections)
@@ -919,7 +920,7 @@ func generate(rng *rand.Rand, o genOpts, c *Case, ref *hnode) *dag {
 		if known && a < o.n0 {
 			for j := o.n0; j < n; j++ {
 				closeToLast := lastJoinStep >= 0 && count-lastJoinStep < 40 && rng.Intn(6) == 0 // two changes inside one activation window
-				if !joinIssued[j] && (closeToLast || rng.Intn(o.steps/(3*(o.extra+1))+1) == 0) {
+				if !joinIssued[j] && (closeToLast || (o.joinEarly && count > 10+20*(j-o.n0)) || rng.Intn(o.steps/(3*(o.extra+1))+1) == 0) {
 					lastJoinStep = count
 					itx := hg.NewInternalTransactionJoin(*d.parts[j].peer)
 					itx.Sign(d.parts[j].key)
